@@ -22,7 +22,9 @@ import (
 //	7 R5b  S:[REQ s {}] + environment closes S's inbound channel  P:[EVENT e1, EVENT e2]
 //	8 R6   S:[REQ s {}], S's reader stops after k reads; P:[EVENT x buflen+2]; then S drains
 //	9 R7   S:[REQ s {}, EVENT x]  P:[EVENT e1]   (a connection receives its own event)
-const C07Scenarios = 10
+//	10 R8  S:[REQ s {}, CLOSE z, COUNT c]        P:[EVENT e1]   (CLOSE of an id that is not open)
+//	11 R9  S:[REQ a {kinds:[1]}, REQ b {kinds:[7]}, CLOSE a, CLOSE a, COUNT c]  P:[EVENT e1(k1), EVENT e2(k7)]
+const C07Scenarios = 12
 
 type pubEvent struct {
 	ev       *mocrelay.Event
@@ -60,7 +62,7 @@ func RouterScenario(h *vsched.H) {
 	var subscribers, publishers []*Conn
 	stalled := false
 	switch sc {
-	case 0, 1, 2, 3, 6, 7, 8, 9:
+	case 0, 1, 2, 3, 6, 7, 8, 9, 10, 11:
 		S, P := newConn("S"), newConn("P")
 		subscribers, publishers = []*Conn{S}, []*Conn{P}
 		switch sc {
@@ -101,6 +103,12 @@ func RouterScenario(h *vsched.H) {
 			}
 			go P.Write(msgs...)
 			stalled = true
+		case 10:
+			go S.Write(ReqMsg("s", all...), CloseMsg("z"), CountMsg("c"))
+			go P.Write(EventMsg(e1))
+		case 11:
+			go S.Write(ReqMsg("a", k1...), ReqMsg("b", k7...), CloseMsg("a"), CloseMsg("a"), CountMsg("c"))
+			go P.Write(EventMsg(e1), EventMsg(e2))
 		case 9:
 			x := Ev('c', '2', 1, 30)
 			go S.Write(ReqMsg("s", all...), EventMsg(x))
